@@ -38,6 +38,52 @@ Definition gateway_steps (t : N) (addr : buf) (host : name) : body :=
   else if (t =? 3)%N then [SName host false; SOver (length host + 1 - name_len host)]
   else [].
 
+(* ---- character-strings with presentation escapes (session 5) ----
+   packTxtString / packOctetString (msg.go) decode the text while they copy it: a backslash and three
+   digits is one octet (modulo 256), a backslash and anything else is that octet, a lone backslash at
+   the very end is dropped — but only after the loop has asked for room for one more octet.
+   [unesc s] = the decoded octets and whether the text ended in such a lone backslash. *)
+Fixpoint unesc (s : name) : buf * bool :=
+  match s with
+  | [] => ([], false)
+  | c :: r =>
+      if (c =? backslash)%N then
+        match r with
+        | [] => ([], true)
+        | c1 :: r1 =>
+            match r1 with
+            | c2 :: c3 :: r3 =>
+                if is_digit c1 && is_digit c2 && is_digit c3
+                then let u := unesc r3 in (ddd_byte c1 c2 c3 :: fst u, snd u)
+                else let u := unesc r1 in (c1 :: fst u, snd u)
+            | _ => let u := unesc r1 in (c1 :: fst u, snd u)
+            end
+        end
+      else let u := unesc r in (c :: fst u, snd u)
+  end.
+
+Definition max_text : nat := 1025.   (* `len(s) > 256*4+1`: ErrBuf whatever the buffer *)
+
+(* one <character-string> (packTxtString: TXT / SPF / NINFO / AVC / RESINFO strings, and every untagged
+   string field through packString): length octet + decoded octets; refused when the text is longer
+   than 1025 octets or decodes to more than 255; len() counts the TEXT + 1 *)
+Definition txt_string_steps (s : name) : body :=
+  if max_text <? length s then [SFail; SOver (length s + 1)]
+  else
+    let u := unesc s in
+    let d := fst u in
+    if 255 <? length d then [SFail; SOver (length s + 1)]
+    else [SBytes (N.of_nat (length d) :: d)] ++ (if snd u then [SRoom1] else []) ++ [SOver (length s - length d)].
+
+(* the `octet` tag (packOctetString: CAA value, URI target): no length octet; the entry check asks for
+   one octet of room even when nothing is written; len() counts the TEXT *)
+Definition octet_steps (s : name) : body :=
+  if max_text <? length s then [SFail; SOver (length s)]
+  else
+    let u := unesc s in
+    let d := fst u in
+    [SRoom1; SBytes d] ++ (if snd u then [SRoom1] else []) ++ [SOver (length s - length d)].
+
 (* packDataSVCB sorts the pairs by key (and refuses a repeated key) *)
 Fixpoint insert_pair (p : N * buf) (l : list (N * buf)) : list (N * buf) :=
   match l with
